@@ -122,6 +122,7 @@ class C03(InputProp):
         # fan-out through every function: A = {{f<sep>...{{A}}...}} twice, page {{A}} - the recursion limit must bound the work whichever
         # function (and whichever argument position, colon or pipe form) the recursive calls are routed through
         fams.append(Product(names, ["colon", "pipe"], [0, 1, 2], name="fanout"))
+        fams.append(Product(sorted(self.OVERFLOWS), [2, 3, 5], name="same-expander"))
         # acyclic universes that multiply: t_i includes t_(i+1) f times, n levels deep (f^n inclusions from n short templates)
         fams.append(Product([2, 3], [4, 8, 12, 16, 20, 30, 45] if tier != "quick" else [4, 12, 20, 45], ["plain", "via-arg", "via-if"], name="multiply"))
         # every function nested in its own k-th argument (an argument that is expanded twice doubles the work per level)
@@ -200,9 +201,36 @@ class C03(InputProp):
         return "{{%s|%s}}" % (name, "|".join(args))
 
     def describe(self, case):
+        if case[0] == "same-expander":
+            return {"family": case[0], "shape": case[1][0], "expansions_on_one_expander": case[1][1], "text": self.OVERFLOWS[case[1][0]][0][:80]}
         return {"family": case[0], "text": self.build(case)[0]}
 
+    # pages whose expansion runs into the recursion limit or the argument size limit (both are unwound to the outermost call)
+    OVERFLOWS = {"self-loop": ("a{{L}}b", {"L": "x{{L}}y"}), "mutual-loop": ("3{{P}}4", {"P": "p{{Q}}", "Q": "q{{P}}"}),
+                 "loop-in-arg": ("a{{T|{{L}}}}b", {"L": "{{L}}", "T": "[{{{1}}}]"}), "big-argument": ("a{{T|" + "x" * 300000 + "}}b", {"T": "[{{{1}}}]"})}
+
+    def run_same_expander(self, c):
+        """ONE expander expands several texts one after the other (the parser does that for the body of every <ref>, <poem>,
+        <gallery>): every overflow must be handled like the first one"""
+        shape, n = c
+        text, pages = self.OVERFLOWS[shape]
+        te = self.Expander("", pagename="Test page", wikidb=self.db("en", pages))
+        outs = []
+        for i in range(n):
+            try:
+                outs.append(te.parseAndExpand(text))
+            except Exception as e:
+                return {"key": ("same-expander", shape, "exc"), "steps": i + 1,
+                        "viol": [{"sig": "same-expander:" + exc_signature(e), "msg": "expansion #%d of %r on one Expander raised %s: %s (the earlier ones returned %r)" % (
+                            i + 1, text[:60], type(e).__name__, str(e)[:100], [o[:30] for o in outs])}]}
+        viol = []
+        if any(o != outs[0] for o in outs):
+            viol.append({"sig": "same-expander:results-differ", "msg": "%d expansions of %r on one Expander gave %r" % (n, text[:60], [o[:40] for o in outs])})
+        return {"key": ("same-expander", shape, outs[0][:40]), "steps": n, "viol": viol}
+
     def run_case(self, case):
+        if case[0] == "same-expander":
+            return self.run_same_expander(case[1])
         text, db, extra = self.build(case)
         t0 = time.process_time()
         try:
